@@ -26,7 +26,7 @@ RULE = ('One case = generated chart whose guards and contract conditions are pro
 ASSUMPTIONS = ['idle() inside the post-conditions/invariants of the transition being fired is accepted with either reading '
                '(stamp before or after that firing) - the statement does not fix it',
                'dyadic clock values make float arithmetic exact (W10)']
-REQUIRED_COUNTERS = ['steps_checked', 'predicates_checked', 'predicates_at_exact_boundary', 'steps_with_clock_moved_inside',
+REQUIRED_COUNTERS = ['selection_under_plain_time_guards_cases', 'steps_checked', 'predicates_checked', 'predicates_at_exact_boundary', 'steps_with_clock_moved_inside',
                      'time_reads_checked', 'idle_after_internal_transition', 'guard_predicates', 'contract_predicates',
                      'multi_transition_steps']
 TIERS = dict(quick=dict(steps=40, gen=dict(max_states=10, max_depth=4, max_trans=14)),
@@ -85,6 +85,12 @@ class TCoder(build.Coder):
 
 
 def run_case(acc, rnd, tier, case):
+    if case % 4 == 3:
+        from .. import execmon
+        acc.count('selection_under_plain_time_guards_cases')
+        execmon.run_case(acc, rnd, tier, case, 'timed', 'C13', gen_kw=dict(p_orth=0.45, timed_plain=0.8, p_guard=0.2, p_internal=0.3,
+                                                                         p_eventless=0.3))
+        return
     T = TIERS[tier]
     mode = rnd.choice((None, 'orth', 'orth', 'history'))
     ch = gen_chart(rnd, mode=mode, contracts=True, p_contract=0.35, p_internal=0.35, p_guard=0.4, p_eventless=0.2,
